@@ -74,6 +74,26 @@ def Packet.outstanding (p : Packet) : Bool := !p.mtuProbe && !p.pathProbe && p.a
 /-- the placeholder `&packet{isPathProbePacket: true}` that `SentPathProbePacket` stores in `packets` -/
 def dummyProbe : Packet := { pathProbe := true }
 
+/-- why a Go panic happened (all are printed as `PANIC`) -/
+inductive PanicCause
+  /-- nil `*packetNumberSpace` (dropped) or "invalid packet number space" -/
+  | nilSpace
+  /-- "negative bytes_in_flight" -/
+  | negativeBytesInFlight
+  /-- "non-sequential packet number use" -/
+  | nonSequential
+  /-- "negative number of outstanding packets" -/
+  | negativeOutstanding
+  /-- "cleanup failed" -/
+  | cleanupFailed
+  /-- nil `*packet` dereferenced in `Remove` / `DeclareLost` -/
+  | nilPacket
+  /-- "Cannot drop keys for encryption level" -/
+  | dropLevel
+  /-- ACK frame without ranges (index out of range) -/
+  | emptyAck
+deriving DecidableEq, Repr
+
 /-! ### sentPacketHistory -/
 
 structure Hist where
@@ -144,8 +164,7 @@ def Hist.cleanupStart (h : Hist) : Hist :=
 inductive RemoveRes
   | ok (h : Hist) (p : Packet)
   | notFound
-  /-- nil dereference, "negative number of outstanding packets" or "cleanup failed" -/
-  | panic
+  | panic (c : PanicCause)
 deriving Repr
 
 /-- `Remove`; also returns the packet that was stored -/
@@ -154,21 +173,21 @@ def Hist.remove (h : Hist) (pn : PN) : RemoveRes :=
   | none => .notFound
   | some idx =>
     match (h.packets[idx]?).join with
-    | none => .panic                       -- `p.Outstanding()` on a nil entry
+    | none => .panic .nilPacket            -- `p.Outstanding()` on a nil entry
     | some p =>
       let n := if p.outstanding then h.numOutstanding - 1 else h.numOutstanding
-      if n < 0 then .panic
+      if n < 0 then .panic .negativeOutstanding
       else
         let pk := h.packets.set idx none
         let h1 : Hist := { h with packets := pk, numOutstanding := n }
         let h2 := if (pk.take idx).any Option.isSome then h1 else h1.cleanupStart
         match h2.packets with
-        | none :: _ => .panic               -- "cleanup failed"
+        | none :: _ => .panic .cleanupFailed
         | _ => .ok h2 p
 
 inductive LostRes
   | ok (h : Hist)
-  | panic
+  | panic (c : PanicCause)
 deriving Repr
 
 /-- `DeclareLost` -/
@@ -177,10 +196,10 @@ def Hist.declareLost (h : Hist) (pn : PN) : LostRes :=
   | none => .ok h
   | some idx =>
     match (h.packets[idx]?).join with
-    | none => .panic
+    | none => .panic .nilPacket
     | some p =>
       let n := if p.outstanding then h.numOutstanding - 1 else h.numOutstanding
-      if n < 0 then .panic
+      if n < 0 then .panic .negativeOutstanding
       else
         let h1 : Hist := { h with packets := h.packets.set idx none, numOutstanding := n }
         .ok (if idx = 0 then h1.cleanupStart else h1)
@@ -216,9 +235,13 @@ def Hist.hasOutstandingPackets (h : Hist) : Bool := h.numOutstanding > 0
 def Hist.hasOutstandingPathProbes (h : Hist) : Bool := !h.probes.isEmpty
 def Hist.len (h : Hist) : Int := h.packets.length
 
+/-- frames of the packets stored in `packets` -/
+def packetsFrames (l : List (Option Packet)) : List Frame := (l.filterMap id).flatMap Packet.allFrames
+/-- frames of the packets stored in `pathProbePackets` -/
+def probesFrames (l : List (PN × Packet)) : List Frame := l.flatMap fun x => x.2.allFrames
+
 /-- frames still tracked by the history (ghost view used by the ledger) -/
-def Hist.pending (h : Hist) : List Frame :=
-  (h.packets.filterMap id).flatMap Packet.allFrames ++ (h.probes.flatMap fun x => x.2.allFrames)
+def Hist.pending (h : Hist) : List Frame := packetsFrames h.packets ++ probesFrames h.probes
 
 /-! ### packet number generators -/
 
